@@ -1,10 +1,13 @@
 """C04 — augmented-Lagrangian evaluations equal their definition for every provider mix.
-proof: Properties_C04.v (AugLag.v at the real instance: every te_eval_* = closed form for EVERY provider mask);
+translator: translate/gen_C04_vtable.py regenerates coq/gen/VtableGen.v from type-erased-problem.hpp/.tpp (vtable tables,
+  Gallina terms of calc_ŷ_dᵀŷ and the default_* compositions built from the parsed statements) and the CasADi call sites;
+proof: Properties_C04.v (AugLag.v at the real instance: every te_eval_* = closed form for EVERY provider mask; the generated
+  terms are equivalent to the hand-written te_*; finite theorems over the generated tables);
 correspondence: AugLag.v at binary64 (Corr_C04.chk04: values AND the log of user members called) vs drv_C04, which
   reaches one mask-switchable problem through TypeErasedProblem directly / ProblemWithCounters / FunctionalProblem;
 oracle: closed forms recomputed here from f, grad f, g, Jg only, compared with what the interface returned;
   grad psi against central finite differences of the interface's psi (support)."""
-import math
+import math, importlib.util
 from vf.core import *
 
 INF = float("inf")
@@ -143,6 +146,51 @@ def gen_case(rng, mask7, force=None):
     c["v"] = [rng.dyadic(-2, 2, 2) for _ in range(n)]
     return c
 
+def gen_case_tiny(rng, mask7):
+    """badly scaled: every nonzero ŷ_i has magnitude 2^-60..2^-40 (y, the violation of D and possibly Σ tiny), the constraint
+    Jacobian is large (2^8..2^20) so that ∇g·ŷ is far above the rounding noise of ∇f; exactly-zero ŷ_j next to them.
+    All data dyadic and x = 0 (g(x) = b, Jg = A), bounds touching 0, so that ζ, ŷ and ∇g·ŷ are EXACT in binary64."""
+    n = rng.choice([1, 2, 3]); m = rng.choice([1, 2, 3, 4])
+    Q = [[0.0] * n for _ in range(n)]
+    for i in range(n):
+        for k in range(i, n):
+            Q[i][k] = Q[k][i] = rng.dyadic(-2, 2, 2)
+    e = rng.randint(40, 52)                     # scale 2^-e of multipliers and violations
+    sc = 2.0 ** -e
+    sk = rng.choice(["scalar", "vector"])
+    S = [2.0 ** rng.randint(-8, 3)] if (sk == "scalar" or m == 1) else [2.0 ** rng.randint(-8, 3) for _ in range(m)]
+    if len(S) > 1 and len(set(S)) == 1:
+        S[-1] *= 2.0
+    c = dict(n=n, m=m, Q=Q, c=[rng.choice([0.0, rng.dyadic(-2, 2, 2), rng.dyadic(-2, 2, 2) * 2.0 ** -20]) for _ in range(n)],
+             A=[[rng.choice([-1, 1]) * 2.0 ** rng.randint(8, 20) * rng.choice([1.0, 1.5, 1.25]) for _ in range(n)] for _ in range(m)],
+             w=[(0.0 if rng.random() < 0.5 else rng.dyadic(-1, 1, 2)) for _ in range(m)],
+             x=[0.0] * n, S=S, dy=True)
+    lb, ub, b, y = [], [], [], []
+    allzero = rng.random() < 0.15               # every constraint feasible: ŷ = 0 exactly
+    for j in range(m):
+        sg = S[0] if len(S) == 1 else S[j]
+        side = rng.choice(["lo", "hi"])
+        if side == "lo":
+            l, u = 0.0, rng.choice([INF, 1.0, 0.75, 3.0])
+        else:
+            l, u = rng.choice([-INF, -2.0, -0.5]), 0.0
+        kind = "zero" if allzero else rng.choice(["viol", "viol", "viol", "zero"])
+        yj = rng.choice([-3, -2, -1, 1, 2, 3, 5]) * sc * rng.choice([1.0, 0.25, 2.0 ** -6])
+        if kind == "viol":                      # ζ_j = b_j + y_j/σ_j just outside the bound 0, by a few 2^-e
+            v = rng.choice([1, 2, 3, 5, 7]) * sc * rng.choice([1.0, 0.5, 2.0 ** -5])
+            zeta = -v if side == "lo" else v
+        else:                                   # ζ_j strictly feasible, or exactly on the bound
+            zeta = rng.choice([0.0, (1 if side == "lo" else -1) * rng.choice([1, 3]) * sc])
+        bj = zeta - yj / sg
+        lb.append(l); ub.append(u); b.append(bj); y.append(yj)
+    c["lb"], c["ub"], c["b"], c["y"] = lb, ub, b, y
+    hb = rng.choice([0, 0, 1, 2, 3])
+    c["mask"] = mask7 | (hb << 7)
+    c["scale"] = rng.choice([1.0, 0.5, 2.0])
+    c["v"] = [rng.dyadic(-2, 2, 2) for _ in range(n)]
+    c["tiny"] = True
+    return c
+
 def gen_cases(ctx):
     rng = ctx.rng
     cases = []
@@ -154,9 +202,13 @@ def gen_cases(ctx):
             elif r == 1: force = {"sigma": "vector", "m": rng.choice([2, 3, 5])}
             elif r == 2: force = {"m": rng.choice([0, 0, 1])}
             cases.append(gen_case(rng, mask7, force))
+    # badly scaled multipliers / violations (tiny but nonzero ŷ): every mask
+    for mask7 in range(128):
+        for r in range(ctx.n(1, 12)):
+            cases.append(gen_case_tiny(rng, mask7))
     # extra cases with no combined member supplied: the only masks a FunctionalProblem can realise (route F)
     for r in range(ctx.n(60, 1500)):
-        cases.append(gen_case(rng, 0))
+        cases.append(gen_case(rng, 0) if r % 4 else gen_case_tiny(rng, 0))
     return cases
 
 def to_input(c):
@@ -282,7 +334,7 @@ def signature(c, cf):
     for j in range(min(c["m"], 3)):
         z, l, u = cf["zeta"][j], c["lb"][j], c["ub"][j]
         cls.append("l" if z == l else "u" if z == u else "L" if z < l else "U" if z > u else "I")
-    return "%d/%s/%s/%s" % (c["mask"] & 0x1ff, "s" if len(c["S"]) == 1 else "v", "m0" if c["m"] == 0 else "m+", "".join(cls))
+    return "%s%d/%s/%s/%s" % ("tiny:" if c.get("tiny") else "", c["mask"] & 0x1ff, "s" if len(c["S"]) == 1 else "v", "m0" if c["m"] == 0 else "m+", "".join(cls))
 
 def strip4(entries):
     return [dict(e, log=[k for k in e["log"] if k != 4]) for e in entries]
@@ -293,9 +345,28 @@ def enc_case(c):
 
 def dec_case(c):
     d = lambda v: unhex(v) if isinstance(v, str) else ([d(t) for t in v] if isinstance(v, list) else v)
-    return {k: (v if k in ("n", "m", "mask", "dy") else d(v)) for k, v in c.items()}
+    return {k: (v if k in ("n", "m", "mask", "dy", "tiny") else d(v)) for k, v in c.items()}
 
 # --------------------------------------------------------------------------- run
+
+def run_translator(ctx):
+    p = os.path.join(VERIF, "translate", "gen_C04_vtable.py")
+    spec = importlib.util.spec_from_file_location("gen_C04_vtable", p)
+    mod = importlib.util.module_from_spec(spec)
+    try:
+        spec.loader.exec_module(mod)
+        st = mod.write(REPO, VERIF)
+    except Exception as ex:
+        ctx.broke("translator", "gen_C04_vtable", repr(ex))
+        return "error"
+    ctx.coverage["translator"] = {"VtableGen.v": st.get("status"), "out_of_grammar": st.get("out_of_grammar"),
+                                  "vtable_fields": st.get("fields"), "defaults": st.get("defaults"),
+                                  "casadi_calls": st.get("casadi_calls"), "composition_graph": st.get("graph"),
+                                  "inout_buffers": st.get("inout")}
+    if st.get("status") != "ok" or st.get("out_of_grammar"):
+        ctx.log("translator-out-of-grammar: %s — %s" % (st.get("out_of_grammar"),
+                "coq/gen/VtableGen.v holds the REFERENCE text; tie 2 (correspondence) and the oracle alone cover the default compositions" if st.get("status") != "ok" else "partial"))
+    return st.get("status")
 
 def run(ctx):
     ctx.coverage["rule"] = ("every one of the 128 provider masks of the 7 optional combined members (x random Hessian-product bits) on random "
@@ -307,8 +378,17 @@ def run(ctx):
         "infinite sides of D are None in the model (equal to ±inf doubles for finite ζ)",
         "differentiability: proved for the 1-D penalty z -> ½σ·dist²(z,[l,u]); the multivariate chain rule is assumed and supported by finite differences",
         "wrapper transparency (ProblemWithCounters, FunctionalProblem) is a correspondence claim (same model for every route), not a theorem",
-        "CasADi and C-ABI (dl) wrappers are not exercised here (dl forwarding is covered by C20)"]
-    check_properties(ctx)
+        "CasADi and C-ABI (dl) wrappers are not exercised at run time here (dl forwarding is covered by C20); the CasADi loader's call sites are checked "
+        "statically (argument roles vs the python generator's declared inputs and the loader's dims)",
+        "translator (translate/gen_C04_vtable.py): restricted C++ statement grammar; binding of vtable entry names to the model's record fields and "
+        "the classification rvec = output / crvec,real_t = input / work_* = scratch are part of the trusted translator; vectors have their declared sizes "
+        "(loops over y.size() become maps over the shortest list)"]
+    tr_status = run_translator(ctx)                 # regenerates coq/gen/VtableGen.v from core.REPO
+    ok_proof = check_properties(ctx)
+    if not ok_proof and tr_status == "ok":
+        ctx.log("Properties_C04.v no longer checks against the terms/tables generated from %s "
+                "(coq/gen/VtableGen.v: default compositions, vtable tables, CasADi call sites)" % REPO)
+    coq_make(["theories/Corr_C04.vo"])              # depends on the regenerated gen/VtableGen.v
     if not build_driver(ctx, "C04"):
         return
     if ctx.replay_path:
@@ -353,6 +433,8 @@ def run(ctx):
     for k, (c, o) in enumerate(zip(cases, outs)):
         ctx.count("sigma=%s" % ("scalar" if len(c["S"]) == 1 else "vector"))
         ctx.count("hess_bits=%d" % (c["mask"] >> 7))
+        if c.get("tiny"):
+            ctx.count("badly_scaled")
         ctx.count("m=%d" % c["m"]); ctx.count("n=%d" % c["n"])
         cf = py_closed(c)
         ctx.case(signature(c, cf), sample={"case": enc_case(c), "impl": {"D": o.get("D")}} if k % 211 == 0 else None)
@@ -420,3 +502,15 @@ def run(ctx):
                               "model": getattr(ctx, "last_dump", ""), "n_disagreeing": len(failing)}))
     elif failing is not None:
         ctx.coverage["correspondence_disagreements"] = 0
+    # translation validation: the terms GENERATED from the sources, run at binary64, against the same observations
+    sub = terms if ctx.quick() else terms[:4000]
+    failing_g = coq_failing_cases(ctx, "corrgen", "Prox AugLag VtableGen Corr_C04", "c04case", "chk04g", sub, shard=ctx.n(100, 400), dump="model04g")
+    ctx.coverage["generated_model_cases"] = len(sub)
+    if failing_g:
+        k, route = idx[failing_g[0]]
+        ctx.coverage["generated_model_disagreements"] = len(failing_g)
+        ctx.broke("correspondence", "coq/gen/VtableGen.v (generated from the sources, translator status %s) vs drv_C04 (route %s, mask %d)" % (tr_status, route, cases[k]["mask"]),
+                  json.dumps({"input": to_input(cases[k]), "case": enc_case(cases[k]), "route": route, "impl_output": outs[k][route],
+                              "model": getattr(ctx, "last_dump", ""), "n_disagreeing": len(failing_g)}))
+    elif failing_g is not None:
+        ctx.coverage["generated_model_disagreements"] = 0
